@@ -153,8 +153,26 @@ def run(ctx):
         if sw:
             sb, tt, ff = sw[0]
             plain = [b for b, t in pf.calls() if last_seg(fx.callee_decl(t)) in ("parse", "from_str")]
-            ctx.check(bool(plain) and all(b in pf.reachable([ff]) and b not in pf.reachable([tt]) for b in plain), "DOM", "C19:DOM:plain-path-without-option", "without the option the literal is parsed by str::parse (plain path)",
-                      "the plain float path is not taken exactly when the option is off", config, ctx.where(pf))
+            # the ordinary-literal interpretation is computed whatever the option says (same code with and without it) ...
+            after = pf.reachable([tt]) | pf.reachable([ff])
+            ctx.check(bool(plain) and all((b not in after and sb in pf.reachable([b])) or (b in pf.reachable([ff]) and b not in pf.reachable([tt])) for b in plain), "DOM", "C19:DOM:plain-path-without-option",
+                      "the literal is parsed by str::parse at the target type independently of the option", "the plain float interpretation now depends on the option", config, ctx.where(pf))
+            # ... and with the option on it is what is returned for a scalar that *is* an ordinary literal (unless degree-tagged):
+            # the evaluator is unreachable from the edge `plain is Ok` and `tag != Degrees`
+            okp = False
+            for ib, isym, itt, iff in bool_switches(pf):
+                if isym[0] == "call" and last_seg(isym[1]) == "is_ok" and ib in pf.reachable([tt]):
+                    for cb, ct in pf.calls():
+                        if cb in pf.reachable([itt]) and last_seg(fx.callee(ct)) in ("ne", "eq"):
+                            with pf.deep():
+                                args = " ".join(render(pf.sym_operand(a)) for a in ct["args"])
+                            if "SfTag::Degrees" in args:
+                                e = switch_edges(pf, ct["t"]) if ct["t"] is not None else None
+                                if e:
+                                    notdeg = e[0] if last_seg(fx.callee(ct)) == "ne" else e[1]
+                                    okp = not (set(calls) & pf.reachable([notdeg]))
+            ctx.check(okp, "DOM", "C19:DOM:literal-bypasses-evaluator", "with the option on, a scalar that parses as an ordinary literal (and is not degree-tagged) is returned as parsed, without the evaluator",
+                      "with angle_conversions on every scalar goes through the f64 evaluator again: f32 targets are rounded twice and `-0.0` / `infinity` no longer keep the value they have without the option", config, ctx.where(pf))
         # callers of the evaluator
         callers = {c.npath for c, b in fx.callers.get("robotics::parse_yaml12_float_angle_converting", [])}
         ctx.check(callers == {"parse_scalars::parse_yaml12_float"}, "DOM", "C19:DOM:single-caller", "the evaluator has one caller", "the evaluator is also called from %s" % sorted(callers - {"parse_scalars::parse_yaml12_float"}), config, ctx.where(pf))
